@@ -208,6 +208,45 @@ CHECKS["C19"] = dict(
     technique="TLA+ model of send() model-checked by TLC (with/without lock); recorded send sessions of real clients validated by TLC",
 )
 
+_DEC = ("TLC model-checks spec/N2KDecoder.tla (MC_Decoder): a decoder built with a configuration, an unfiltered twin and a third "
+        "independent instance; inputs are single frames of two PGNs and of two definitions sharing one PGN number, in-order and "
+        "truncated fast-packet frames, address claims with three NAMEs, unknown PGNs, bad inputs, and the end of the discovery window. ")
+_REPLAY = ("TLC then generates behaviours of a larger configuration (3 sources, 14 inputs); each is replayed into real decoder objects "
+           "(list entries as numbers or ids / manufacturer names in random letter case, a settable clock for the discovery window) and "
+           "the recorded history - output, content, attached identity per step, for the filtered decoder and its twin - is validated by "
+           "TLC against N2KDecoder!Step. ")
+CHECKS["C10"] = dict(
+    level="model_checking",
+    text=(_DEC + "For every exclude / include list of up to two entries given by number and/or by id TLC checks Selection (the filtered "
+          "decoder returns exactly the twin's permitted messages, unchanged, at the same positions - so dropping frames by number "
+          "before reassembly is indistinguishable from selecting afterwards) and MapAgree (filtered claims still update the source "
+          "map). " + _REPLAY),
+    note="Trusted: TLC; content observed by re-encoding the returned message; kinds stand for PGNs 127250/130306/61184 (two definitions)/128275/60928.",
+    design="5/C10",
+    technique="TLA+ model of the decoder with an unfiltered twin model-checked by TLC; TLC-generated behaviours replayed into real decoders, histories validated by TLC",
+)
+CHECKS["C11"] = dict(
+    level="model_checking",
+    text=(_DEC + "For manufacturer exclude / include lists, network map on / off and the claim PGN filtered or not TLC checks LatestClaim "
+          "(every returned message carries the NAME of its source's latest claim, also when the claim arrives inside a fast-packet "
+          "message), NoLeak, Discovery, Isolation (a claim never changes another address) and Returned (non-vacuity). " + _REPLAY +
+          "The decoded identity fields are covered by C01's validation of PGN 60928."),
+    note="Trusted: as C10; an unknown manufacturer code passes manufacturer lists (left unconstrained by the property).",
+    design="5/C11",
+    technique="TLA+ model of the decoder's source map and manufacturer / discovery filters model-checked by TLC; replayed behaviours validated by TLC",
+)
+CHECKS["C16"] = dict(
+    level="model_checking",
+    text=(_DEC + "TLC checks BadInputsHarmless, NoCrossTalk (steps of the other instance never change this one) and FreshMessageReturned "
+          "(a complete message with a fresh sequence counter is returned after any history, including truncated first and "
+          "continuation frames). " + _REPLAY + "Three real decoders are alive at once (the third receives traffic and garbage of its "
+          "own between the steps); bad inputs are drawn from eight kinds across all five input formats; every behaviour is replayed "
+          "twice on fresh objects and the two records must be identical; constructor arguments are checked for mutation."),
+    note="Trusted: as C10. 'Rejected or ignored': a bad input may raise or return None, never a message, and never change later results.",
+    design="5/C16",
+    technique="TLA+ model of decoder instances with bad and truncated inputs model-checked by TLC; replayed behaviours validated by TLC, replay determinism",
+)
+
 NOT_YET = {
 }
 
